@@ -21,7 +21,12 @@ namespace multi = boost::multi;
 #ifndef ELEM
 #define ELEM char
 #endif
+#ifndef VF_NO_GMEM
 extern "C" { extern ELEM g_mem[MEMSZ]; }
+#define VF_GMEM_DEFAULT = g_mem
+#else
+#define VF_GMEM_DEFAULT
+#endif
 
 struct Dim { L first, size, stride; };
 template<int D> struct Spec { Dim d[D > 0 ? D : 1]; L origin; };
@@ -106,7 +111,7 @@ template<class C, int D> static inline auto elem_cursor_(C c, L const* rel, std:
 template<class T, std::size_t... I> static inline void tuple_to_array_(T const& t, L* out, std::index_sequence<I...>) { using std::get; using boost::multi::detail::get; ((out[I] = get<I>(t)), ...); }
 
 // ---- observers agree with the spec; a symbolic valid tuple reaches the prescribed element through every access path
-template<int D, class V> static inline void check_view(V&& v, Spec<D> const& m, ELEM* root = g_mem) {
+template<int D, class V> static inline void check_view(V&& v, Spec<D> const& m, ELEM* root VF_GMEM_DEFAULT) {
   static_assert(std::decay_t<V>::rank_v == D, "rank");
   L sz[D]; L st[D];
   tuple_to_array_(v.sizes(), sz, std::make_index_sequence<D>{});
@@ -147,4 +152,55 @@ template<int D, class V> static inline void check_view(V&& v, Spec<D> const& m, 
     vf_assert(&elem_cursor_(v.home(), rel, std::integral_constant<int, D>{}) - root == want, "cursor reaches the prescribed element");
     ELEM volatile sink = elem_brackets(v, i); (void)sink;   // an actual read: cbmc checks it against the bounds of the root object
   }
+}
+
+// a view description with prescribed sizes (own strides / origin), inside a storage of memsz cells
+template<int D> static inline Spec<D> arbitrary_spec_like(Spec<D> const& like, L fb, L memsz) {
+  Spec<D> s{};
+#pragma unroll
+  for(int k = 0; k < D; ++k) {
+    s.d[k].size = like.d[k].size;
+    s.d[k].stride = vf_nondet_long();
+    s.d[k].first = 0;
+    if(fb != 0) { s.d[k].first = vf_nondet_long(); vf_assume(-fb <= s.d[k].first && s.d[k].first <= fb); }
+    vf_assume(1 <= s.d[k].stride && s.d[k].stride <= SB);
+  }
+  s.origin = vf_nondet_long();
+  vf_assume(0 <= s.origin && s.origin < memsz);
+  vf_assume(s.origin + spec_hull(s) < memsz);
+  return s;
+}
+// distinct valid tuples designate distinct cells (no self-overlap): holds for every view the library can produce from an array
+template<int D> static inline bool spec_injective(Spec<D> const& s) {
+  // sufficient and, for the bounded shapes used here, checked by enumeration: for all pairs of tuples, equal address => equal tuple
+  constexpr int N = D == 1 ? NB : D == 2 ? NB * NB : NB * NB * NB;
+  bool ok = true;
+#pragma unroll
+  for(int t = 0; t < N; ++t) {
+#pragma unroll
+    for(int u = 0; u < t; ++u) {
+      L i[D], j[D]; int tt = t, uu = u; bool vi = true, vj = true;
+#pragma unroll
+      for(int k = D - 1; k >= 0; --k) { i[k] = tt % NB; tt /= NB; j[k] = uu % NB; uu /= NB; vi = vi && i[k] < s.d[k].size; vj = vj && j[k] < s.d[k].size; i[k] += s.d[k].first; j[k] += s.d[k].first; }
+      if(vi && vj && spec_addr(s, i) == spec_addr(s, j)) ok = false;
+    }
+  }
+  return ok;
+}
+// is cell c designated by the view?  if so, out = the (unique, if injective) tuple designating it
+template<int D> static inline bool spec_designates(Spec<D> const& s, L c, L* out) {
+  constexpr int N = D == 1 ? NB : D == 2 ? NB * NB : NB * NB * NB;
+  bool found = false;
+#pragma unroll
+  for(int t = 0; t < N; ++t) {
+    L i[D]; int tt = t; bool valid = true;
+#pragma unroll
+    for(int k = D - 1; k >= 0; --k) { i[k] = tt % NB; tt /= NB; valid = valid && i[k] < s.d[k].size; i[k] += s.d[k].first; }
+    if(valid && spec_addr(s, i) == c) {
+      found = true;
+#pragma unroll
+      for(int k = 0; k < D; ++k) out[k] = i[k];
+    }
+  }
+  return found;
 }
